@@ -84,7 +84,10 @@ def testAcceptance (thr new old kt : α) : Bool := decide (thr < energySurface n
 /-- `MCOptimiser::accept_score` with the threshold draw made explicit -/
 def acceptScore (new : Option α) (old kt thr : α) : Option α :=
   match new with
-  | some n => if old < n then some n else if testAcceptance thr n old kt then some n else none
+  | some n =>
+    -- a score which is not a number (the only value different from itself) is never accepted
+    if !(n == n) then none
+    else if old < n then some n else if testAcceptance thr n old kt then some n else none
   | none => none
 
 /-- everything the optimiser holds between steps -/
